@@ -51,6 +51,10 @@ structure Conn where
   subs : List Sub := []
   aliasMax : Nat := 0
   aliases : List (String × Nat) := []
+  /-- `BrokerAliases.used_aliases` (a slab whose slot 0 is taken): freed numbers, most recent first,
+      and the next never-used number -/
+  aliasFree : List Nat := []
+  aliasHigh : Nat := 1
   inAliases : List (Nat × Bytes) := []
   lastPkid : Nat := 0
   /-- set when the task is over without a `ServerWill` task (rejected by `mqtt_connect`) or panicked outside it -/
@@ -195,9 +199,18 @@ def useAlias (x : Conn) (filter : String) : Conn × Option Nat × Bool :=
   match Router.alookup filter x.aliases with
   | some a => (x, some a, true)
   | none =>
-    let next := x.aliases.length + 1
-    if next > x.aliasMax then (x, none, false)
-    else ({ x with aliases := x.aliases ++ [(filter, next)] }, some next, false)
+    -- `set_new_alias`: `used_aliases.insert(())`, given back at once if above the client's maximum
+    let (k, free, high) := match x.aliasFree with
+      | k :: r => (k, r, x.aliasHigh)
+      | [] => (x.aliasHigh, [], x.aliasHigh + 1)
+    if k > x.aliasMax then ({ x with aliasFree := k :: free, aliasHigh := high }, none, false)
+    else ({ x with aliases := x.aliases ++ [(filter, k)], aliasFree := free, aliasHigh := high }, some k, false)
+
+/-- `BrokerAliases::remove_alias(filter)` on UNSUBSCRIBE -/
+def dropAlias (x : Conn) (filter : String) : Conn :=
+  match Router.alookup filter x.aliases with
+  | some a => { x with aliases := Router.aremove filter x.aliases, aliasFree := a :: x.aliasFree }
+  | none => x
 
 /-- forwards of one accepted publish (or fired will) to every session with a matching subscription.
     `props` = the stored properties (`none` / `some passThrough`), as `forward_device_data` builds them. -/
@@ -350,6 +363,17 @@ def State.clientPacket (s : State) (c : Nat) (p : Packet) : State :=
         if !s.filters.any (fun f => topicMatches topic f) then s.routerClose c none else
         let s := if qos = .q1 then s.push c (.deviceAck (.pubAck pkid .Success)) else s
         s.route topic payload (storedProps props)
+    | .unsubscribe pkid _ filters =>
+      -- one reason per filter; a subscribed filter is removed together with its broker alias
+      let (x, reasons) := filters.foldl (fun (acc : Conn × List UnsubReason) f =>
+        match str? f with
+        | some path =>
+          if acc.1.subs.any (·.filter == path) then
+            (dropAlias { acc.1 with subs := acc.1.subs.filter (·.filter ≠ path) } path, acc.2 ++ [.Success])
+          else (acc.1, acc.2 ++ [.NoSubscriptionExisted])
+        | none => (acc.1, acc.2 ++ [.NoSubscriptionExisted])) (x, [])
+      let s := s.setConn c x
+      s.push c (.deviceAck (.unsubAck pkid reasons))
     | .puback _ _ _ => s.routerClose c none        -- the generators only send unsolicited ones
     | .disconnect _ _ =>
       let s := { s with lastWills := Router.aremove x.cid s.lastWills }
